@@ -441,10 +441,10 @@ pub fn inst(e: &Expr, cx: &Cx) -> (Incr<Val>, Tag) {
             let t = new_tag();
             let can = canary();
             let k = *k;
-            let targets: Vec<(Var<Val>, Tag, WriteOp, Val, i32)> = ws
+            let targets: Vec<(RefCell<Option<Var<Val>>>, Tag, WriteOp, Val, i32)> = ws
                 .iter()
                 .filter_map(|(vt, op, operand, thr)| {
-                    cx.vars.get(vt).map(|v| (v.clone(), *vt, *op, operand.clone(), *thr))
+                    cx.vars.get(vt).map(|v| (RefCell::new(Some(v.clone())), *vt, *op, operand.clone(), *thr))
                 })
                 .collect();
             let specs: Vec<WriteSpec> = targets
@@ -461,9 +461,11 @@ pub fn inst(e: &Expr, cx: &Cx) -> (Incr<Val>, Tag) {
                 log(Event::Run { tag: t, role: Role::Map, args: vec![x.clone()] });
                 tick(Role::Map);
                 read_in_fn(t);
-                for (var, vt, op, operand, thr) in targets.iter() {
-                    if x.n().rem_euclid(3) >= *thr {
-                        let ret = do_write(var, *op, operand);
+                for (slot, vt, op, operand, thr) in targets.iter() {
+                    if x.n().rem_euclid(3) >= *thr % 10 {
+                        // a closure that has given up its handle cannot write any more
+                        let Some(var) = slot.borrow().clone() else { continue };
+                        let ret = do_write(&var, *op, operand);
                         log(Event::Write {
                             by: t,
                             from_handler: false,
@@ -472,6 +474,12 @@ pub fn inst(e: &Expr, cx: &Cx) -> (Incr<Val>, Tag) {
                             operand: operand.clone(),
                             ret,
                         });
+                        if *thr >= 10 {
+                            // the deferred write is pending and this may have been the last handle
+                            drop(var);
+                            slot.borrow_mut().take();
+                            log(Event::WriterReleased { by: t, var: *vt });
+                        }
                     }
                 }
                 f1(k, x)
